@@ -29,7 +29,12 @@ RULE = ("spea2: exhaustive 1-objective/2-objective tiny populations (n<=4, value
         "log-time sort; 430-470 individuals x 495 reference points (5 objectives, p=8), also on associate_to_niche "
         "directly; SPEA2 populations with one objective at 1e16..1e18 next to unit-scale ones, dominated before "
         "dominator; individuals are list-based with genomes unrelated to the fitness (equal genomes, different "
-        "fitnesses); NSGA-III fronts with unit-spaced values on a common offset of 1e14..2^50; k in 1..n, both nd back-ends, generator reference "
+        "fitnesses); SPEA2 at extreme magnitudes (values j*1e150..j*1e300 mixed with ordinary ones: some or all squared "
+        "distances overflow to +inf, mostly more than k non-dominated individuals); every SPEA2 case whose float "
+        "arithmetic is exact is also run end to end (spea2e: strengths, raw fitness, distances, quick-select with the "
+        "recorded pivot draws and densities computed by the model); every selNSGA3 call without a near-tie is also run "
+        "with the model's own non-dominated sort (nsga3e); "
+        "NSGA-III fronts with unit-spaced values on a common offset of 1e14..2^50; k in 1..n, both nd back-ends, generator reference "
         "points M=nobj, p in 1..8, scaling none or 1/2, plain and with memory over 3 consecutive calls; "
         "niching/associate/find_intercepts also driven directly on synthetic inputs; refs: every M in 1..6 x p in 1..8 x "
         "scaling in {none,1/2,1/4,3/4,1/3}; qsel: random arrays with duplicates. Non-trivial = distinct case that "
@@ -38,8 +43,9 @@ EXHAUSTIVE = {"quick": False, "thorough": False}
 TIME_BUDGET = {"quick": 60, "thorough": 900}
 MIN_CASES = 2000
 CASE_TIMEOUT = 60
-TRUSTED = ["pareto_fronts are taken from the real sortNondominated/sortLogNondominated (verified by C04); "
-           "the front-priority oracle recomputes the ranks by brute force",
+TRUSTED = ["nsga3e lines: the fronts come from the model's own sort (Core/NDSort.lean, proved in C04) on the exact "
+           "values of the weighted values; the older nsga3/nsga3f/niching lines still replay the later stages on the "
+           "implementation's captured fronts; the front-priority oracle recomputes the ranks by brute force",
            "numpy.linalg.solve (LAPACK) is not modelled: it is the model's `solve` parameter; in the selNSGA3 "
            "streams its answer comes from the HARNESS's own call on the harness's own matrix (the oracle's "
            "normalisation is the harness's own numpy code: ideal/worst point, ASF extreme points, hyperplane "
@@ -47,20 +53,31 @@ TRUSTED = ["pareto_fronts are taken from the real sortNondominated/sortLogNondom
            "implementation's call (incl. answers perturbed by the harness to miss the contract A.x = b)",
            "numpy elementwise arithmetic/argmin/unique/flatnonzero semantics; Lean Float = IEEE binary64 "
            "(association compared with relative tolerance 1e-9)",
-           "SPEA2 density values fits[i] are read from the running implementation (frame locals); the "
-           "theorems hold for every value of them"]
-ASSUMPTIONS = ["1 <= k <= n, fitness values finite (no NaN); SPEA2 distances are finite sums of squares "
-               "(-1 < d < inf)",
+           "spea2e lines: nothing is read from the implementation (weights, weighted values and the recorded "
+           "random.randint pivot draws go in, the selection comes out; exact rationals, emitted only when a check "
+           "on the INPUT shows that every float operation of selSPEA2 is exact on it).  spea2 lines (all magnitudes, "
+           "incl. inexact and overflowing ones): the model is driven with the squared distances as the code's float "
+           "operations yield them (recomputed by the harness, compared with the matrix left in the implementation's "
+           "frame; an overflowed sum is the entry `inf`) and, in the archive-too-small branch, with the line-759 "
+           "values read from the frame; the theorems hold for every value of both"]
+ASSUMPTIONS = ["1 <= k <= n, fitness values finite (no NaN).  SPEA2 squared distances may overflow to +inf: the "
+               "spea2V_* theorems hold for every matrix of computed entries (finite or inf); only "
+               "spea2_to_remove_distinct (no position removed twice) needs finite entries, with inf entries position 0 "
+               "can repeat in to_remove (spea2_to_remove_overflow) and the deletion loop still removes one element per entry",
+               "the end-to-end SPEA2 model (spea2e) is exact arithmetic: compared only on inputs whose float arithmetic "
+               "is exact; K = sqrt(N) is represented by its integer part (quickselect_floor)",
                "selNSGA3 theorems take the pareto_fronts as given with len(all fronts but the last) < k <= total "
                "(what sortNondominated(individuals, k) returns) and niche numbers < len(ref_points)",
                "association theorems are over the reals, relative to the normalised point the code computed; "
                "binary64 rounding can only matter for reference directions whose distances differ by ~1e-16",
                "reference points: nobj >= 1, p >= 1; non-negativity under scaling for 0 <= scaling <= 1, "
                "distinctness for scaling != 0"]
-EXPLANATION = ("Theorems C07.* hold for every population, every distance/density value, every shuffle tape; "
-               "the correspondence ties Core/Spea2.lean and Core/Nsga3.lean to deap.tools.emo by running "
-               "the same inputs (with the implementation's own shuffles, association and densities) "
-               "through both and comparing the selected objects.")
+EXPLANATION = ("Theorems C07.* hold for every population, every distance/density value (overflowed ones included), "
+               "every shuffle / pivot tape; the correspondence ties Core/Spea2.lean and Core/Nsga3.lean to "
+               "deap.tools.emo by running the same inputs through both and comparing the selected objects: end to "
+               "end (selSPEA2E from weights and weighted values, selNSGA3E with the model's own non-dominated sort, "
+               "normalisation and association) and stage by stage (with the implementation's own fronts, association, "
+               "distances and densities).")
 
 EPS = float(numpy.finfo(float).eps)
 
@@ -431,7 +448,7 @@ def ref_points(M, p, scaling):
     return tools.uniform_reference_points(M, p, None if scaling is None else float(Fr(scaling)))
 
 
-def nsga3_lines(pop, cap, k, sel_pos, near, memory, F, Fid, imem, indep):
+def nsga3_lines(pop, cap, k, sel_pos, near, memory, F, Fid, imem, indep, wv=None):
     """protocol lines + expected answers for one captured selNSGA3 call.  F / Fid: the harness-built
     minimised objective matrix in flattened-front order / in input order; imem: the harness's copy of the
     memory before the call; indep: the harness's own normalisation (its solve answer feeds the model)."""
@@ -466,11 +483,40 @@ def nsga3_lines(pop, cap, k, sel_pos, near, memory, F, Fid, imem, indep):
                 lines.append("C07 nsga3f %s %d %s %s %s %s %s %s %s" % ((ilist2(fronts), k, flist2(Fid), flist2(cap["refs"]))
                                                                         + mtoks + (stok, tape_tok(cap["draws"]))))
                 expect.append(ilist(sel_pos))
+                # the same, with the non-dominated sort done by the model too (C04 model on the exact values of
+                # the weighted values): nothing of the implementation's intermediate data is used
+                if wv is not None:
+                    lines.append("C07 nsga3e %s %s %d %s %s %s %s %s %s" % (
+                        ("log" if cap["nd"] == "sortLogNondominated" else "std", rlist2([[Fr(x) for x in t] for t in wv]), k,
+                         flist2(cap["refs"])) + mtoks + (stok, tape_tok(cap["draws"]))))
+                    expect.append(ilist(sel_pos))
     if memory is not None:
         b0, w0, mem = memory
         lines.append("C07 mem %s %s %s" % (flist2(cap["fitnesses"]), flist(b0), flist(w0)))
         expect.append("%s %s" % (flist(numpy.array(mem.best_point).reshape(-1)), flist(numpy.array(mem.worst_point).reshape(-1))))
     return lines, expect
+
+
+def guard_decisions(F):
+    """a function of the INPUT only: the outcome of every test of find_intercepts (singular / zero component /
+    allclose / 1e-6 guard / `intercepts + ideal > worst`, per component) as the harness's own numpy code
+    evaluates them on this objective matrix.  In real arithmetic a translation changes none of them; in binary64
+    an intercept that EQUALS the worst point (1/x = 3.0000000000000004 against 3) lands on either side of
+    `intercepts + ideal > worst` depending on the magnitude of the ideal point it is added to.  Two matrices that
+    are exact translates of each other and still decide differently sit on such a rounding boundary: they say
+    nothing about translation invariance (each run still associates correctly in its own normalised space, which
+    is what the statement asks and what assoc_oracle checks)."""
+    best, worst = numpy.min(F, axis=0), numpy.max(F, axis=0)
+    A = own_extreme_points(F, best) - best
+    try:
+        x = numpy.linalg.solve(A, numpy.ones(len(best)))
+    except numpy.linalg.LinAlgError:
+        return ("sing",)
+    if numpy.any(x == 0):
+        return ("zero",)
+    ic = 1.0 / x
+    return (bool(numpy.allclose(numpy.dot(A, x), numpy.ones(len(best)))), tuple((ic <= 1e-6).tolist()),
+            tuple(((ic + best) > worst).tolist()))
 
 
 def translation_oracle(d, w, vals, k, refs, cap, F, flat):
@@ -488,6 +534,8 @@ def translation_oracle(d, w, vals, k, refs, cap, F, flat):
         return None                      # values at the 1e-6 scale: the shift is not exact in binary64
     if not numpy.all(shift == shift[0]) or numpy.max(numpy.abs(F)) > 1e6 or (numpy.max(numpy.abs(F)) < 1e-3 and numpy.max(numpy.abs(F)) > 0):
         return None                      # the shift is not exact in binary64: nothing to compare
+    if guard_decisions(F) != guard_decisions(F2all):
+        return None                      # the intercept guard is decided by rounding on this input: nothing to compare
     with Capture() as cp2, NpShuffle(_random.Random(d.get("seed", 0))):
         tools.selNSGA3(pop2, k, refs, nd=d["nd"])
     cap2 = cp2.calls[-1]
@@ -508,6 +556,64 @@ def translation_oracle(d, w, vals, k, refs, cap, F, flat):
     return None
 
 
+def dtok(x):
+    """a computed squared distance: exact rational, or `inf` when the float sum of squares overflowed"""
+    return "inf" if x == float("inf") else sfr(Fr(x))
+
+
+def spea2_matrix_check(cap, nd, D):
+    """the harness recomputes the distance matrix with the code's float operations; what the implementation
+    itself computed is still visible in its frame when it returns: every entry of `distances` outside the
+    removed rows / columns (those are overwritten with inf) and off the diagonal.  A difference means the
+    model would be driven with another matrix than the code used: a correspondence break."""
+    dm, rem = cap.get("distances"), cap.get("to_remove")
+    if not isinstance(dm, list) or not isinstance(rem, list) or len(dm) != len(nd):
+        return None
+    gone = set(rem)
+    for a in range(len(nd)):
+        for b in range(len(nd)):
+            if a != b and a not in gone and b not in gone:
+                try:
+                    got = float(dm[a][b])
+                except (TypeError, ValueError, IndexError):
+                    return "CORRESPONDENCE: selSPEA2's distance matrix is not a square float matrix any more"
+                if got != D[nd[a]][nd[b]]:
+                    return ("CORRESPONDENCE: selSPEA2 computed distance %r for the non-dominated positions %d, %d; "
+                            "the harness's transcription of lines 773-777 gives %r" % (got, nd[a], nd[b], D[nd[a]][nd[b]]))
+    return None
+
+
+def spea2_exact_regime(w, vals, wv, D, branch):
+    """a function of the INPUT only: may the rational end-to-end model be compared with the float code?  Yes
+    when every float operation of selSPEA2 on this input is exact (weighted values, the values read back,
+    differences, squares, sums) and, in the archive-too-small branch, the exact keys raw + 1/(kth+2) are equal
+    or far further apart than the rounding of the division and the sum."""
+    n = len(vals)
+    try:
+        for v, t in zip(vals, wv):
+            for x, ww, y in zip(v, w, t):
+                if float(y) != y or Fr(float(y) / float(Fr(ww))) != Fr(x):      # product / read-back exact
+                    return False
+        for i in range(n):
+            for j in range(i + 1, n):
+                exact = sum((Fr(a) - Fr(b)) ** 2 for a, b in zip(vals[i], vals[j]))
+                if D[i][j] == float("inf") or Fr(D[i][j]) != exact:
+                    return False
+    except (OverflowError, ValueError):
+        return False
+    if branch != "small":
+        return True
+    dom = [[dominates(wv[i], wv[j]) for j in range(n)] for i in range(n)]
+    strength = [sum(dom[i]) for i in range(n)]
+    raw = [sum(strength[j] for j in range(n) if dom[j][i]) for i in range(n)]
+    r = math.isqrt(n)
+    keys = []
+    for i in range(n):
+        row = sorted([Fr(0)] * (i + 1) + [Fr(D[i][j]) for j in range(i + 1, n)])
+        keys.append(raw[i] + 1 / (row[r] + 2))
+    return all(a == b or abs(a - b) > Fr(1, 10 ** 9) * (1 + abs(a)) for a in keys for b in keys)
+
+
 def eval_spea2(d):
     w, vals, k = d["w"], d["vals"], d["kk"]
     pop = make_pop(w, vals, d.get("geno"))
@@ -519,7 +625,9 @@ def eval_spea2(d):
         if event == "return" and frame.f_code is code:
             cap["fits"] = list(frame.f_locals.get("fits", []))
             cap["chosen"] = list(frame.f_locals.get("chosen_indices", []))
-    with tapemod.Tape(rng=_random.Random(d.get("seed", 0))):
+            cap["distances"] = frame.f_locals.get("distances")
+            cap["to_remove"] = frame.f_locals.get("to_remove")
+    with tapemod.Tape(rng=_random.Random(d.get("seed", 0))) as tp:
         sys.setprofile(prof)
         try:
             sel = tools.selSPEA2(pop, k)
@@ -543,12 +651,31 @@ def eval_spea2(d):
             acc += v * v
         return acc
     fv = [tuple(ind.fitness.values) for ind in pop]
-    D = [[Fr(fdist(fv[min(i, j)], fv[max(i, j)])) for j in range(n)] for i in range(n)]
+    # the computed squared distances as the float arithmetic of lines 773-777 yields them (same operations in
+    # the same order); a sum that overflowed is the matrix value `inf`
+    D = [[fdist(fv[min(i, j)], fv[max(i, j)]) for j in range(n)] for i in range(n)]
+    if msg is None and branch == "large":
+        msg = spea2_matrix_check(cap, nd, D)
     fits = cap.get("fits", [])
     fits_tok = rlist([Fr(x) for x in fits]) if branch == "small" and len(fits) == n else "-"
-    line = "C07 spea2 %s %d %s %s" % (rlist2(wv), k, fits_tok, rlist2(D))
+    line = "C07 spea2 %s %d %s %s" % (rlist2(wv), k, fits_tok, ";".join(",".join(dtok(x) for x in r) for r in D))
     out = ilist([p if p is not None else 999999 for p in pos])
-    return Case(d, [line], [out], msg, tag="spea2/%s/m=%d" % (branch, len(w)), nontrivial=(1 < k < n), tol=1e-9)
+    ovf = any(x == float("inf") for r in D for x in r)
+    lines, expect = [line], [out]
+    # end to end: strengths, raw fitness, squared distances, quick-select (pivot draws from the tape) and
+    # densities all computed by the model from the weights and the weighted values, in exact rationals
+    if spea2_exact_regime(w, vals, wv, D, branch):
+        if any(x[0] != "randint" for x in tp.draws):
+            if msg is None:
+                msg = "TAPE: selSPEA2 drew %s; the model's quick-select reads random.randint pivots only" % (
+                    sorted(set(x[0] for x in tp.draws if x[0] != "randint")),)
+        else:
+            draws = [x[3] - x[1] for x in tp.draws]            # offsets r - begin
+            lines.append("C07 spea2e %s %s %d %s" % (rlist([Fr(x) for x in w]), rlist2(wv), k, ilist(draws)))
+            expect.append(out)
+    return Case(d, lines, expect, msg, tag="spea2/%s/m=%d%s%s" % (branch, len(w), "/overflow" if ovf else "",
+                                                               "/e2e" if len(lines) > 1 else ""),
+                nontrivial=(1 < k < n), tol=1e-9)
 
 
 def eval_nsga3(d):
@@ -599,7 +726,7 @@ def eval_nsga3(d):
             m = translation_oracle(d, w, vals, k, refs, cap, F, flat)
             if m and msg is None:
                 msg = m
-        l, e = nsga3_lines(pop, cap, k, pos, near, memory, F, Fid, imem, indep)
+        l, e = nsga3_lines(pop, cap, k, pos, near, memory, F, Fid, imem, indep, wv)
         lines += l
         expect += e
         imem = indep[2] if imem is not None else None
@@ -973,6 +1100,60 @@ def gen_spea2_absorb(rng):
             "geno": gen_geno(rng, n)}
 
 
+HUGE = [1e150, 1e153, 1e154, 1.5e154, 1e155, 1e160, 1e160, 1e170, 1e200, 1e300]
+
+
+def gen_spea2_huge(rng, variant):
+    """extreme magnitudes (finite): objective values j * 1e150 .. j * 1e300 mixed with ordinary ones, so that
+    some or all squared distances `val * val` overflow to +inf (a difference beyond ~1.3e154).  Mostly
+    mutually non-dominated individuals with k below their number (archive too large), where a surviving row
+    whose neighbours are all infinitely far ties with an already removed row."""
+    m = rng.randint(2, 4) if variant % 4 != 0 else 2
+    w = rand_weights(rng, m)
+    n = rng.randint(3, 10)
+    scale = rng.choice(HUGE)
+    kind = variant % 4
+    pts = []                                        # minimisation form
+    if kind == 0:                                   # one widely spread front: every distance overflows
+        xs = rng.sample(range(0, 3 * n), n)
+        pts = [[x * scale, (3 * n - x) * scale] for x in xs]
+    elif kind == 1:                                 # clusters of ordinary spacing, infinitely far from each other
+        centres = [[float(rng.randint(0, 3)) * scale for _ in range(m)] for _ in range(rng.randint(2, 3))]
+        for _ in range(n):
+            c = rng.choice(centres)
+            cut = sorted(rng.randint(0, 6) for _ in range(m - 1))
+            pts.append([cc + float(b - a) for cc, a, b in zip(c, [0] + cut, cut + [6])])
+    elif kind == 2:                                 # a simplex front, some individuals / objectives scaled up
+        s_ = rng.randint(3, 9)
+        big_obj = rng.randrange(m)
+        for _ in range(n):
+            cut = sorted(rng.randint(0, s_) for _ in range(m - 1))
+            pt = [float(b - a) for a, b in zip([0] + cut, cut + [s_])]
+            if rng.random() < 0.6:
+                pt[big_obj] = -pt[big_obj] * scale if rng.random() < 0.5 else pt[big_obj] * scale
+            pts.append(pt)
+    else:                                           # random values at several magnitudes, duplicates included
+        scales = [rng.choice([1.0, scale, rng.choice(HUGE)]) for _ in range(m)]
+        pts = [[float(rng.randint(-4, 9)) * sc for sc in scales] for _ in range(n)]
+        if rng.random() < 0.4:
+            pts[rng.randrange(n)] = list(pts[rng.randrange(n)])
+    order = list(range(len(pts)))
+    rng.shuffle(order)
+    pts = [pts[i] for i in order]
+    vals = [[float(-Fr(x) / Fr(ww)) for x, ww in zip(pt, w)] for pt in pts]
+    wv = [tuple(Fr(x) * Fr(ww) for x, ww in zip(v, w)) for v in vals]
+    nd = sum(1 for i in range(n) if not any(dominates(wv[j], wv[i]) for j in range(n)))
+    r = rng.random()
+    if nd > 1 and r < 0.7:
+        k = rng.randint(1, nd - 1)                  # archive too large
+    elif r < 0.85:
+        k = min(n, max(1, nd + rng.choice([0, 1, 2])))
+    else:
+        k = rng.randint(1, n)
+    return {"k": "spea2", "w": w, "vals": vals, "kk": k, "shape": "huge", "seed": rng.randrange(1 << 30),
+            "geno": gen_geno(rng, n)}
+
+
 def gen_wide(rng, direct):
     """many individuals x many reference points (n * M * |refs| well above 2^20): 5 objectives, p = 8
     (495 directions), 430..470 individuals spread over the directions."""
@@ -1130,6 +1311,9 @@ def generate(tier, rng, mult):
                 for k in range(1, n + 1):
                     for w in (["-1"] * m, ["1", "-1"][:m]):
                         yield {"k": "spea2", "w": w, "vals": [list(v) for v in vals], "kk": k, "shape": "tiny", "seed": 1}
+    # SPEA2 at extreme magnitudes: squared distances that overflow to +inf (to_remove may repeat position 0)
+    for v in range(400 if thorough else 80):
+        yield gen_spea2_huge(rng, v)
     base_n = (50000 if thorough else 1500) * mult
     for t in range(base_n):
         yield gen_nsga3(rng, mem=False, call=("kw", "plain", "nd")[t % 3])
@@ -1138,6 +1322,8 @@ def generate(tier, rng, mult):
         yield gen_spea2(rng)
         if t % 5 == 0:
             yield gen_spea2_absorb(rng)
+        if t % 5 == 1:
+            yield gen_spea2_huge(rng, t // 5)
         yield gen_niching(rng)
         if t % 2 == 0:
             yield gen_assoc(rng)
